@@ -1,4 +1,5 @@
 import Femio.Props.C05
+import Femio.Props.C05K
 open Femio.C05
 #print axioms C05_full_save
 #print axioms C05_crash_inv
@@ -10,3 +11,11 @@ open Femio.C05
 #print axioms C05_load_complete_save
 #print axioms C05_crash_counterexample_upstream
 #print axioms C05_stale_counterexample_upstream
+open Femio.C05K
+#print axioms split_join
+#print axioms C05_keys_attr_roundtrip
+#print axioms C05_keys_roundtrip
+#print axioms C05_keys_elements_roundtrip
+#print axioms C05_keys_elemental_collection_roundtrip
+#print axioms C05_keys_counterexample_substring_type
+#print axioms C05_keys_counterexample_ids_in_name
